@@ -81,7 +81,22 @@ def run(ctx):
             ok, why = True, "inside a `with <lock>` block"
         if bad and _thread_local_global(ix, e.root):
             ok, why = True, "thread-local / ContextVar storage"
-        ctx.ob("R1", sf, f"shared write `{text}` reached from validate of {', '.join(sorted(d['classes']))}", ok,
+        construct = f"shared write `{text}` reached from validate of {', '.join(sorted(d['classes']))}"
+        # a write to *every* field of a shared object (`setattr(X, name, v)` in a loop) is the same finding as the writes to the
+        # individual fields of X recorded for this function: report it under those constructs, so that re-spelling four
+        # assignments as a loop neither hides nor duplicates a known finding
+        wild = sorted(t for t in d["targets"] if t.endswith(".*"))
+        if not ok and wild:
+            from ..report import load_known
+            fq = sf if isinstance(sf, str) else getattr(sf, "qual", str(sf))
+            alias = [k["construct"] for k in load_known().get("known", []) if k.get("rule") == "C07.R1" and k.get("function") == fq
+                     and any(("`" + w.split(".")[-2] + ".") in k["construct"] for w in wild)
+                     and k["construct"].endswith("reached from validate of " + ", ".join(sorted(d["classes"])))]
+            if alias:
+                for a in alias:
+                    ctx.ob("R1", sf, a, False, f"(written here as `{text}`) unsynchronised write to {sorted(d['targets'])[:3]}")
+                continue
+        ctx.ob("R1", sf, construct, ok,
                why if ok else
                f"unsynchronised write ({', '.join(sorted(bad))}) to {sorted(d['targets'])[:3]}, shared by all threads validating "
                f"through {sorted(d['entries'])[:4]}; a concurrent validate observes the intermediate value; call path: {chain(e) or 'direct'}",
